@@ -9,7 +9,7 @@ and no matching call lies on the path.
 Slots are found by parameter TYPE, never by name.
 """
 from . import mir
-from .mir import FactWalker, const_int, fld, last_seg, render, strip_sites
+from .mir import subexprs as mir_subexprs, FactWalker, const_int, fld, last_seg, render, strip_sites
 
 FD_PAIR = "(i32, i32)"
 
@@ -358,11 +358,50 @@ class Model:
             return False
         for a, w in zip(args, want):
             if w == "GETPID":
-                if not (a[0] == "call" and last_seg(a[1]) == "getpid"):
+                if not (a[0] == "call" and last_seg(a[1]) == "getpid") and not self._chosen_value_matches(bb, a, w, ob):
                     return False
                 continue
             if a != w:
+                if not self._chosen_value_matches(bb, a, w, ob):
+                    return False
+        return True
+
+    def _chosen_value_matches(self, bb, actual, wanted, ob):
+        """`let g = if first { getpid() } else { *pgid }; setpgid(0, g)`: the argument is a local chosen between several
+        values.  The call meets the obligation when one of its definitions is the wanted expression and that definition
+        is the one taken in every world in which the obligation has to hold (its dominating tests allow the world, the
+        tests of the other definitions do not)."""
+        from .rules.c02 import dom_facts
+        body = self.body
+        if actual[0] != "var":
+            return False
+        l = actual[1]
+        defs = body.defs.get(l, [])
+        if len(defs) < 2 or len(defs) > 4:
+            return False
+        good, others = None, []
+        for bi, si in defs:
+            e = self.canon(body.def_expr(bi, si))
+            hit = (wanted == "GETPID" and e[0] == "call" and last_seg(e[1]) == "getpid") or e == wanted
+            if hit and good is None:
+                good = bi
+            else:
+                others.append(bi)
+        if good is None:
+            return False
+        worlds = [w for w in self.worlds if ob["guard"](w)]
+        if not worlds:
+            return False
+        from .etag import derived_facts
+        gf = [(strip_sites(a), v) for a, v in derived_facts(body, dom_facts(body, good))]
+        for w in worlds:
+            if not self.world_consistent(w, gf):
                 return False
+            for ob_ in others:
+                of = [(strip_sites(a), v) for a, v in derived_facts(body, dom_facts(body, ob_))]
+                if self.world_consistent(w, of) and set(of) != set(gf):
+                    # another definition could be the one taken in this world
+                    return False
         return True
 
     def canon(self, e):
@@ -390,13 +429,20 @@ class Model:
             from . import flow
             hit = flow.backward(body, it, lambda e: e[0] == "agg" and e[1].endswith("Range::Range"))
             if hit is None:
-                continue
-            lo = linear(s, hit[2][0])
-            hi = linear(s, hit[2][1])
-            if lo != ("idx", 1) or hi != ("count", 0):
-                continue
-            j = self.canon(fld(0, ("downcast", "Some", strip_sites(body.call_expr(nextbb))), "0"))
-            el = ("index", P, j)
+                # the same walk written with iterators: pipes.iter().skip(idx + 1) / pipes[idx + 1..].iter()
+                hs_ = flow.backward(body, it, lambda e: e[0] == "call" and last_seg(e[1]) == "skip" and len(e[2]) == 2 and
+                                    linear(s, e[2][1]) == ("idx", 1) and
+                                    any(self.canon(x) == P or strip_sites(x) == P for x in mir_subexprs(e[2][0])))
+                if hs_ is None:
+                    continue
+                el = self.canon(fld(0, ("downcast", "Some", strip_sites(body.call_expr(nextbb))), "0"))
+            else:
+                lo = linear(s, hit[2][0])
+                hi = linear(s, hit[2][1])
+                if lo != ("idx", 1) or hi != ("count", 0):
+                    continue
+                j = self.canon(fld(0, ("downcast", "Some", strip_sites(body.call_expr(nextbb))), "0"))
+                el = ("index", P, j)
             need = {0: set(), 1: set()}
             for bb in blocks:
                 t = body.term(bb)
@@ -418,6 +464,33 @@ class Model:
             exits = [(a, b) for a in blocks for b in body.succs[a] if b not in blocks]
             if ok and len(exits) == 1:
                 out.add(h)
+        # pipes.iter().skip(idx + 1).for_each(helper): the helper closes both ends of its argument on every path
+        for bb, t, c in body.calls():
+            if last_seg(c) != "for_each" or len(body.call_args(bb)) < 2:
+                continue
+            a0 = body.expand_vars(strip_sites(body.call_args(bb)[0]))
+            sk = [e for e in mir_subexprs(a0) if e[0] == "call" and last_seg(e[1]) == "skip" and len(e[2]) == 2 and
+                  linear(s, e[2][1]) == ("idx", 1) and any(self.canon(x) == P or strip_sites(x) == P for x in mir_subexprs(e[2][0]))]
+            if not sk:
+                continue
+            fn = None
+            for x in mir_subexprs(body.expand_vars(strip_sites(body.call_args(bb)[1]))):
+                if x[0] in ("fnptr", "const") and isinstance(x[1], str) and self.crate.fn(x[1]) is not None:
+                    fn = self.crate.fn(x[1])
+                if x[0] == "const" and isinstance(x[1], tuple) and x[1] and x[1][0] == "fn" and self.crate.fn(x[1][1]) is not None:
+                    fn = self.crate.fn(x[1][1])
+            if fn is None:
+                continue
+            closes = {0: set(), 1: set()}
+            for b2, t2, c2 in fn.calls():
+                if last_seg(c2) == "close" and fn.call_args(b2):
+                    e = fn.expand_vars(strip_sites(fn.call_args(b2)[0]))
+                    if e[0] == "field" and e[1] in (0, 1) and e[2][0] == "param":
+                        closes[e[1]].add(b2)
+            rets = {x for x in fn.reachable if fn.term(x)["k"] == "return"}
+            from . import flow as _fl
+            if all(closes[k] and _fl.must_pass(fn, 0, closes[k], rets) for k in (0, 1)):
+                out.add(bb)
         return out
 
     # ---- exploration
